@@ -195,6 +195,7 @@ fn gen_guest(rng: &mut Rng) -> GuestSpec {
         sub_delay: rng.range(1, 8) as u16,
         init_ccr: if rng.chance(1, 2) { Some(rng.u8()) } else { None },
         stack_off: if rng.chance(1, 2) { 0 } else { 4 * rng.below(64) as u16 },
+        exit_style: if rng.chance(1, 2) { 0 } else { rng.below(5) as u8 },
     }
 }
 
@@ -285,7 +286,7 @@ impl Property for C15 {
             if rng.chance(1, 6) {
                 events.push(Event { trig: Trigger::Iter(rng.below(6)), act: Action::Lines((0..rng.range(1, 4)).map(|_| gen_fuzz_line(rng)).collect()) });
             }
-            return Scn { guest: None, storm: Some(Storm { base, words, er }), events, cfg: SysCfg { wait_start: false, clock, clock_seed, step_cap: 4000, print_msgs: false } };
+            return Scn { guest: None, storm: Some(Storm { base, words, er }), events, cfg: SysCfg { wait_start: false, clock, clock_seed, step_cap: 4000, print_msgs: rng.chance(1, 16), print_opcode: rng.chance(1, 16) } };
         }
         // ---- structured: a healthy guest, corrupted while it runs
         let guest = gen_guest(rng);
@@ -323,7 +324,7 @@ impl Property for C15 {
                 events.push(Event { trig: Trigger::AtPc { pc: w.trapa_pc, nth: 0 }, act: Action::SetReg { r: rng.below(2) as u8, val: if rng.chance(1, 2) { adv_value(rng) } else { *rng.pick(&[0u32, 104, 105, 113, 0x8000_0000]) } } });
             }
         }
-        Scn { guest: Some(guest), storm: None, events, cfg: SysCfg { wait_start: rng.chance(1, 10), clock, clock_seed, step_cap: est * 4 + 3000, print_msgs: rng.chance(1, 8) } }
+        Scn { guest: Some(guest), storm: None, events, cfg: SysCfg { wait_start: rng.chance(1, 10), clock, clock_seed, step_cap: est * 4 + 3000, print_msgs: rng.chance(1, 8), print_opcode: est < 3000 && rng.chance(1, 8) } }
     }
 
     fn execute(scn: &Scn, stats: &mut Stats) -> Verdict {
